@@ -1,7 +1,8 @@
 ---------------------------- MODULE MC_CssSyntax ----------------------------
 (* Bounded exhaustive exploration of the style-sheet parser model (CssSyntax.tla): every sequence of at most
    MaxLen atoms over Atoms is a sheet.  An atom is one token, or a whole good rule set (G1, G2: six
-   tokens; G3: G1's selector with an `!important` colour, so that parsing feeds the cascade), so that sheets of a few atoms hold good rules with junk statements before, between and after.
+   tokens; G3: G1's selector with an `!important` colour, so that parsing feeds the cascade; B1: a block with a
+   colour and no selector, so that `p > B1`, `> p B1`, `p , B1` are rule sets whose selector list decides), so that sheets of a few atoms hold good rules with junk statements before, between and after.
 
      Inv_Syntax   on every well-formed sheet the transcription of parse_stylesheet keeps exactly the rule
                   sets that the reference keeps (C17 on the model: junk statements do not change a sheet)
@@ -22,6 +23,8 @@ AtomToks(a) ==
     [] a = "p:" -> << Tok("ident", "p"), Tok("colon", ":") >>
     [] a = "*" -> << Tok("star", "*") >>
     [] a = "#i" -> << Hash("i", <<>>) >>
+    [] a = ">" -> << Tok("gt", ">") >>
+    [] a = "B1" -> << Tok("lbrace", "{"), Tok("ident", "color"), Tok("colon", ":"), Hash("040404", <<4, 4, 4>>), Tok("rbrace", "}") >>
     [] a = "," -> << Tok("comma", ",") >>
     [] a = "{" -> << Tok("lbrace", "{") >>
     [] a = "}" -> << Tok("rbrace", "}") >>
